@@ -253,6 +253,10 @@ func Tree(t *rapid.T, o Opts) *ref.Node {
 	// every tier, for every check that allows large trees
 	if o.BigTips >= 24 && !o.NoOver64 && rapid.IntRange(0, 99).Draw(t, "over64") == 0 {
 		n = rapid.IntRange(65, 130).Draw(t, "ntips64")
+		if rapid.Bool().Draw(t, "wordedge") {
+			// exactly at the word boundaries of the bitsets
+			n = rapid.SampledFrom([]int{64, 65, 66, 127, 128, 129}).Draw(t, "ntipsedge")
+		}
 	}
 	maxDeg := o.MaxDeg
 	if maxDeg == 0 {
